@@ -17,10 +17,14 @@ Mirrors, function by function:
 
 Conventions.  The stack is the Python tuple `PDAStack.stack`: bottom first, the top is the
 LAST element.  The input symbol `""` (λ) is `none : Option α`.  `PDAStack.top()` of an empty
-stack is `""`; the model returns `none` and no table entry is keyed by it, i.e. the model
-assumes that the empty string is not used as a stack-symbol key (documented domain: stack
-symbols are single characters).  A pushed value may be a `str` or a tuple in Python; both
-are the list of their symbols here (`""` and `()` are `[]`).
+stack is `""`; the model returns `none` and no table entry is keyed by it: the type `γ` of
+stack symbols has no value standing for the empty string.  Since `fix:` cb4efab `PDA.validate`
+begins with `if "" in self.stack_symbols: raise InvalidSymbolError`, and a key `""` that is not
+declared fails `_validate_transition_invalid_stack_symbols`, so no valid table is keyed by `""`;
+on the definitions the model can express the new check never fires, which is why `validate`
+below has no counterpart of it (the harness checks separately that definitions declaring `""`
+are refused).  A pushed value may be a `str` or a tuple in Python; both are the list of their
+symbols here (`""` and `()` are `[]`).
 Both readers can loop forever (λ-cycles): they take `fuel` (number of loop iterations) and
 report `Outcome.outOfFuel` when it runs out.
 -/
